@@ -1079,3 +1079,51 @@ V("C20-caches-on-schema", "C20", "generate_stub caches its result on the schema"
 V("C20-benign-elif-to-if", "C20", "dispatch rewritten with early assignments", STUBS, expect="silent",
   old="    elif isinstance(field, type):\n        storage_type = field\n    elif isinstance(field, str):\n        storage_type = field",
   new="    elif isinstance(field, (type, str)):\n        storage_type = field")
+
+# ------------------------------------------------------------------------------------------ benign refactors (cross-cutting)
+V("BENIGN-fstring-ref-path", "C16", "Config._ref_path builds the path with an f-string", CORE, expect="silent", check=["C16", "C15"],
+  old="        if root:\n            path = root + \".\" + self._key\n        else:\n            path = self._key",
+  new="        if root:\n            path = f\"{root}.{self._key}\"\n        else:\n            path = self._key")
+V("BENIGN-format-ref-path", "C16", "ValidationError.ref_path uses %-formatting", CORE, expect="silent", check=["C16", "C15"],
+  old="            if path:\n                path += \".\" + self.field._key\n            else:",
+  new="            if path:\n                path = \"%s.%s\" % (path, self.field._key)\n            else:")
+V("BENIGN-stub-header-fstring", "C20", "class header rendered with an f-string", STUBS, expect="silent",
+  old="            \"class %s(cincoconfig.core.ConfigType):\" % class_name,", new="            f\"class {class_name}(cincoconfig.core.ConfigType):\",")
+V("BENIGN-list-default-copy-method", "C13", "untyped list default copied with .copy()", LIST, expect="silent", check=["C13", "C12"],
+  old="                default = list(default)", new="                default = default.copy()")
+V("BENIGN-list-default-slice", "C13", "untyped list default copied with [:]", LIST, expect="silent", check=["C13", "C12"],
+  old="                default = list(default)", new="                default = default[:]")
+V("BENIGN-dict-default-unpack", "C13", "dict default copied with {**default}", DICT, expect="silent", check=["C13", "C12"],
+  old="            default = dict(default)", new="            default = {**default}")
+V("BENIGN-keysize-constant", "C07", "key size hoisted into a module constant", ENC, expect="silent", check=["C07", "C08"], edits=[
+    (ENC, "SecureValue = NamedTuple(", "KEY_SIZE = 32\n\nSecureValue = NamedTuple("),
+    (ENC, "        key = os.urandom(32)", "        key = os.urandom(KEY_SIZE)"),
+    (ENC, "        if not self.__key or len(self.__key) != 32:", "        if not self.__key or len(self.__key) != KEY_SIZE:")])
+V("BENIGN-logging-after-store", "C06", "debug logging after the store in _set_value", CORE, expect="silent", check=["C06", "C12", "C15", "C01"], edits=[
+    (CORE, "import inspect\nimport os\nimport warnings", "import inspect\nimport logging\nimport os\nimport warnings\n\n_LOG = logging.getLogger(__name__)"),
+    (CORE, "            else:\n                self._default_value_keys.discard(key)\n                return value",
+     "            else:\n                self._default_value_keys.discard(key)\n                _LOG.debug(\"set %s\", key)\n                return value")])
+V("BENIGN-save-pathlib", "C19", "save writes through pathlib", CORE, expect="silent", check=["C19", "C02"], edits=[
+    (CORE, "import inspect\nimport os\nimport warnings", "import inspect\nimport os\nimport pathlib\nimport warnings"),
+    (CORE, "        filename = os.path.expanduser(filename)\n        with open(filename, \"wb\") as file:\n            file.write(content)",
+     "        pathlib.Path(os.path.expanduser(filename)).write_bytes(content)")])
+V("BENIGN-new-field-class", "C01", "a new EmailField(StringField) with a chained validator", STR, expect="silent", check=["C01", "C05", "C13", "C14", "C12"],
+  old="class LogLevelField(StringField):",
+  new="class EmailField(StringField):\n    storage_type = str\n\n    def _validate(self, cfg: Config, value: str) -> str:\n        value = super()._validate(cfg, value)\n        if \"@\" not in value:\n            raise ValueError(\"value is not an e-mail address\")\n        return value\n\n\nclass LogLevelField(StringField):")
+V("BENIGN-set_value-early-return", "C06", "_set_value: non-Field branch written with early raise", CORE, expect="silent", check=["C06", "C01", "C12", "C15", "C02"],
+  old="""        if isinstance(value, Config):
+            value._parent = self
+            value._key = key
+        elif isinstance(value, dict) and isinstance(field, (Schema, ConfigTypeField)):""",
+  new="""        if not isinstance(value, (Config, dict)):
+            raise ValidationError(
+                self, field, "Unable to coerce %s to Config" % type(value).__name__
+            )
+        if isinstance(value, Config):
+            value._parent = self
+            value._key = key
+        elif isinstance(value, dict) and isinstance(field, (Schema, ConfigTypeField)):""")
+V("BENIGN-plain-dict-data", "C01", "Config._data created as a plain dict", CORE, expect="silent", check=["C01", "C12", "C13"],
+  old="        self._data: Dict[str, Any] = OrderedDict()", new="        self._data: Dict[str, Any] = {}")
+V("BENIGN-validate-walrus", "C11", "load_tree validation flag tested via local", CORE, expect="silent",
+  old="        if validate:\n            self.validate()", new="        run_validation = validate\n        if run_validation:\n            self.validate()")
